@@ -3,12 +3,15 @@ package main
 import (
 	"go/constant"
 	"go/types"
+	"regexp"
 	"strings"
 
 	"golang.org/x/tools/go/ssa"
 )
 
 func init() { registry["C11"] = checkC11 }
+
+var specStoreRe = regexp.MustCompile(`^&\**p:obj\.Spec\b`)
 
 const kubePkg = "provider/cluster/kube"
 
@@ -54,7 +57,7 @@ func literalsOf(s, t string) []string {
 }
 
 func checkC11(c *Check) {
-	c.Explanation = "Decided over the Kubernetes builder/client package: (R1) every call of a namespaced typed-client accessor receives the lease namespace lidNS(<lease id>) (directly, through a local, or through the builder's ns() which returns it); the two frozen exceptions are the read-only all-namespaces pod scan and the provider's own CRD namespace whose object name is lidNS; cluster-scoped namespace calls use lidNS as the name; (R2) pod security: Privileged, AllowPrivilegeEscalation and AutomountServiceAccountToken point to a local whose only value is false, no host namespace / service account / volume / capability field is ever set, exactly one container per pod; (R3) limits come from the leased cpu/memory/storage values, requests from the commit-level helper applied to the same values, nothing else writes those maps, and the helper returns anything but its input only when the commit factor is above 1; (R4) the namespace is lower(base32hex-nopad(sha224(lease id string))) and the lease id string covers all five id fields; (R5) network policy shape: default policy selects all pods with both policy types, ingress peers are only the lease namespace or the ingress controller, public egress excepts the three private ranges and the only other IP block rule is restricted to udp/53, per-service policies open only ports appended under global-and-not-ingress, with a per-service port list, selecting the service's pods; all policies live in the lease namespace; (R6) every generated object carries the lease-namespace label."
+	c.Explanation = "Decided over the Kubernetes builder/client package: (R1) every call of a namespaced typed-client accessor receives the lease namespace lidNS(<lease id>) (directly, through a local, or through the builder's ns() which returns it); the two frozen exceptions are the read-only all-namespaces pod scan and the provider's own CRD namespace whose object name is lidNS; cluster-scoped namespace calls use lidNS as the name; (R2) pod security: Privileged, AllowPrivilegeEscalation and AutomountServiceAccountToken point to a local whose only value is false, no host namespace / service account / volume / capability field is ever set, exactly one container per pod; (R3) limits come from the leased cpu/memory/storage values, requests from the commit-level helper applied to the same values, nothing else writes those maps, and the helper returns anything but its input only when the commit factor is above 1; (R4) the namespace is lower(base32hex-nopad(sha224(lease id string))) and the lease id string covers all five id fields; (R5) network policy shape: default policy selects all pods with both policy types, ingress peers are only the lease namespace or the ingress controller, public egress excepts the three private ranges and the only other IP block rule is restricted to udp/53, per-service policies open only ports appended under global-and-not-ingress, with a per-service port list, selecting the service's pods; all policies live in the lease namespace; (R6) every generated object carries the lease-namespace label; (R7) every typed-client Create/Update in the apply functions is handed the builder's create() result or its update(existing) result, the latter only if that update() rewrites the Spec."
 	c.NotDecided = "requests <= limits as arithmetic inside the helper; injectivity of the namespace beyond hash collisions; Kubernetes' own enforcement"
 	l := c.L
 	fns := l.pkgFuncs(kubePkg)
@@ -368,6 +371,124 @@ func checkC11(c *Check) {
 	if nlab < 2 {
 		c.Fail("C11-R6 lost instances")
 	}
+	c.applyDiscipline(fns)
+}
+
+// applyDiscipline (R7): what reaches the cluster is what the builders generate. The object handed to a typed
+// client's Create derives from the builder's create(); the object handed to Update derives from create() or from
+// the builder's update(existing), and in the latter case update() must regenerate (store into) the object's Spec
+// whenever create() fills a Spec — otherwise the spec already in the cluster (possibly weaker than R2/R3/R5
+// demand) is re-applied unchanged.
+func (c *Check) applyDiscipline(fns []*ssa.Function) {
+	writesSpec := func(fn *ssa.Function) bool {
+		w := false
+		eachInstr(fn, func(i ssa.Instruction) {
+			if st, ok := i.(*ssa.Store); ok {
+				if specStoreRe.MatchString(Sym(st.Addr)) {
+					w = true
+				}
+			}
+		})
+		return w
+	}
+	fillsSpec := func(fn *ssa.Function) bool {
+		f := false
+		for _, g := range fnAndClosures(fn) {
+			eachInstr(g, func(i ssa.Instruction) {
+				if fa, ok := i.(*ssa.FieldAddr); ok && fieldName(fa.X.Type(), fa.Field) == "Spec" {
+					f = true
+				}
+			})
+		}
+		return f
+	}
+	n := 0
+	for _, fn := range fns {
+		if fn.Parent() != nil || !strings.HasPrefix(fn.Name(), "apply") {
+			continue
+		}
+		for _, call := range callsIn(fn, false) {
+			cc := call.Common()
+			if !cc.IsInvoke() {
+				continue
+			}
+			m := cc.Method.Name()
+			full := calleeFull(call)
+			if (m != "Create" && m != "Update") || (!strings.Contains(full, "k8s.io/client-go/kubernetes/typed") && !strings.Contains(full, "pkg/client/clientset")) {
+				continue
+			}
+			n++
+			c.Analysed(fnName(fn))
+			obj := cc.Args[1]
+			s := Sym(obj)
+			ok := false
+			why := "applied object " + short(s) + " does not come from the builder"
+			// resolve the builder calls the object can come from
+			var srcs []*ssa.Call
+			var walk func(v ssa.Value, seen map[ssa.Value]bool)
+			walk = func(v ssa.Value, seen map[ssa.Value]bool) {
+				if seen[v] {
+					return
+				}
+				seen[v] = true
+				switch x := v.(type) {
+				case *ssa.Extract:
+					walk(x.Tuple, seen)
+				case *ssa.Call:
+					srcs = append(srcs, x)
+				case *ssa.Phi:
+					for _, e := range x.Edges {
+						walk(e, seen)
+					}
+				case *ssa.UnOp:
+					if a, isA := x.X.(*ssa.Alloc); isA {
+						for _, r := range *a.Referrers() {
+							if st, isSt := r.(*ssa.Store); isSt && st.Addr == ssa.Value(a) {
+								walk(st.Val, seen)
+							}
+						}
+						return
+					}
+					walk(x.X, seen)
+				case *ssa.IndexAddr:
+					walk(x.X, seen)
+				case *ssa.Index:
+					walk(x.X, seen)
+				case *ssa.ChangeType:
+					walk(x.X, seen)
+				case *ssa.MakeInterface:
+					walk(x.X, seen)
+				default:
+					srcs = append(srcs, nil)
+				}
+			}
+			walk(obj, map[ssa.Value]bool{})
+			ok = len(srcs) > 0
+			for _, src := range srcs {
+				if src == nil {
+					ok = false
+					continue
+				}
+				callee := src.Call.StaticCallee()
+				switch {
+				case callee != nil && callee.Name() == "create" && fnPkgPath(callee) == akash+"/"+kubePkg:
+				case callee != nil && callee.Name() == "update" && fnPkgPath(callee) == akash+"/"+kubePkg && m == "Update":
+					cr := callee.Pkg.Prog.LookupMethod(callee.Signature.Recv().Type(), callee.Pkg.Pkg, "create")
+					if cr != nil && fillsSpec(cr) && !writesSpec(callee) {
+						ok = false
+						why = fnName(callee) + " leaves the fetched object's Spec as found in the cluster, yet its result is what gets applied: the generated spec (" + fnName(cr) + ") never reaches an existing object"
+					}
+				default:
+					ok = false
+					why = "applied object comes from " + short(Sym(src)) + ", not from the builder's create()/update()"
+				}
+			}
+			c.Ob("R7", fnName(fn)+": "+m+" applies the builder-generated object", call.Pos(), ok, why)
+		}
+	}
+	if n < 12 {
+		c.Fail("C11-R7 lost instances: %d typed-client writes in apply functions", n)
+	}
 }
 
 func mnsBuilder(g *ssa.Function) bool {
@@ -536,4 +657,3 @@ func (c *Check) netPol(np *ssa.Function) {
 	}
 	c.Ob("R5", "the opened-port list starts empty for every service", app.Pos(), ok, "the port list is allocated outside the per-service loop: ports of earlier services leak into later services' policies")
 }
-
